@@ -223,8 +223,9 @@ def pipe_rerun(ctx, case):
     vlib.write_ndjson(cpath, [case])
     opath = ctx.path("rerun-obs.ndjson")
     vlib.harness(["exec", "pipe", cpath, opath, 60000])
-    f, _, _ = vlib.judge(ctx, "Trace_PipeObs", opath, 1, name="Trace_PipeObs-rerun", workers=1)
-    return f[0][1] if f else []
+    n = len(vlib.read_ndjson(opath))          # a multi-pipe case yields one record per pipe
+    f, _, _ = vlib.judge(ctx, "Trace_PipeObs", opath, n, name="Trace_PipeObs-rerun", workers=1)
+    return sorted({w for (_, why) in f for w in why})
 
 
 def pipe_mechanism(ctx, obs, obs_path, label):
